@@ -1,10 +1,17 @@
 import TracklibVerif.Model.DTWTable
 import TracklibVerif.Model.DTWReal
+import TracklibVerif.Model.DTWInt64
+import TracklibVerif.Model.DTWHyp
 import TracklibVerif.Drv.Util
 /-! Driver handler for C18 (DTW / FDTW / Frechet matching), scalars = `Float` (IEEE bit patterns).
   match <cls> <dtw|fdtw|frechet> <1|2|inf> <dim> <track1> <track2>
       → <score> <S: i,j;i,j;…> <pairs: a,b;c;…> <nb_links> <diff,…> <ex,…> <ey,…>      (or `err:index`, `err:attr`, …)
   compare <cls> <dtw|fdtw|frechet> <1|2|inf> <dim> <track1> <track2> → <value>
+  match64 <k> <dim> <track1> <track2> → as match: `match(track1, track2, FDTW, p = k, dim)` on `ENUCoords` tracks whose coordinates are
+      `numpy.int64` and a `dim` whose point distance is a `numpy.int64` (1, fn.manh, fn.cheb): `B**k` in int64 (`Model/DTWInt64.lean`,
+      `matchFdtw64`; the distance is read back with `Float.toInt64`, the wrapped power added as `Float.ofInt`)
+  hyp <cls> <p> <dim> <track1> <track2> → 1 | 0: do the hypotheses under which the fast variant is proved correct hold of these
+      tracks (`Model/DTWHyp.lean`, `fastHypCheck` with `big = 1e300`, the accumulation of `p`, `B**x = Float.pow`)? (or `err:…`)
   table <1|2|inf> <D columns: d,d;d,d;…> → <T columns> <M columns: i:j,i:j;…>
   seq <cls> <tracks: track|track|…> <pre: 0,1,…> <steps: step;step;…> → <reply> | <reply> | …
   cls = enu | geo | ecef: the class of the position objects of every track of the request (`ENUCoords`, `GeoCoords`, `ECEFCoords`);
@@ -122,6 +129,22 @@ def handle (cmd : String) (args : List String) : String :=
       | .ok o => showOut o
       | .error e => e
     | _, _, _, _, _, _ => "bad-request"
+  | "match64", [k, d, a, b] =>
+    match k.toNat?, dim? d, track? a, track? b with
+    | some k, some d, some t1, some t2 =>
+      match matchFdtw64 (fun x : Float => x.toInt64.toInt) Float.ofInt { cls := .enu, T := TV.Geo.floatTrig } big k d
+          (TrackObj.fresh t1) t2 with
+      | .ok o => showOut o
+      | .error e => e
+    | _, _, _, _ => "bad-request"
+  | "hyp", [c, p, d, a, b] =>
+    match geom? c, pexp? p, dim? d, track? a, track? b with
+    | some G, some p, some d, some t1, some t2 =>
+      match accOf Float.pow p, distanceOf G d with
+      | .ok w, .ok dist => if fastHypCheck big w dist t1 t2 then "1" else "0"
+      | .error e, _ => e
+      | _, .error e => e
+    | _, _, _, _, _ => "bad-request"
   | "compare", [c, m, p, d, a, b] =>
     match geom? c, mode? m, pexp? p, dim? d, track? a, track? b with
     | some G, some m, some p, some d, some t1, some t2 =>
